@@ -1,0 +1,76 @@
+//! Verification hooks. Compiled only under `--cfg comrak_verif`; never part of
+//! a normal build. Thin wrappers that let an external harness call
+//! crate-private functions of the compiled library itself.
+
+#![allow(missing_docs)]
+
+pub mod strings {
+    //! Wrappers around `crate::strings`.
+    use crate::strings as s;
+
+    pub fn unescape(v: &mut Vec<u8>) {
+        s::unescape(v)
+    }
+    pub fn normalize_code(v: &[u8]) -> Vec<u8> {
+        s::normalize_code(v)
+    }
+    pub fn remove_trailing_blank_lines(line: &mut String) {
+        s::remove_trailing_blank_lines(line)
+    }
+    pub fn chop_trailing_hashtags(line: &mut Vec<u8>) {
+        s::chop_trailing_hashtags(line)
+    }
+    pub fn rtrim(line: &mut Vec<u8>) -> usize {
+        s::rtrim(line)
+    }
+    pub fn ltrim(line: &mut Vec<u8>) -> usize {
+        s::ltrim(line)
+    }
+    pub fn trim(line: &mut Vec<u8>) {
+        s::trim(line)
+    }
+    pub fn clean_url(url: &[u8]) -> Vec<u8> {
+        s::clean_url(url)
+    }
+    pub fn clean_title(title: &[u8]) -> Vec<u8> {
+        s::clean_title(title)
+    }
+    pub fn is_blank(v: &[u8]) -> bool {
+        s::is_blank(v)
+    }
+    pub fn normalize_label(i: &str, fold: bool) -> String {
+        s::normalize_label(i, if fold { s::Case::Fold } else { s::Case::Preserve })
+    }
+    pub fn split_off_front_matter<'s>(v: &'s str, delimiter: &str) -> Option<(&'s str, &'s str)> {
+        s::split_off_front_matter(v, delimiter)
+    }
+}
+
+pub mod entity {
+    //! Wrappers around `crate::entity`.
+    pub fn unescape(text: &[u8]) -> Option<(Vec<u8>, usize)> {
+        crate::entity::unescape(text)
+    }
+    pub fn unescape_html(src: &[u8]) -> Vec<u8> {
+        crate::entity::unescape_html(src)
+    }
+}
+
+pub mod ctype {
+    //! Wrappers around `crate::ctype`.
+    pub fn isspace(ch: u8) -> bool {
+        crate::ctype::isspace(ch)
+    }
+    pub fn ispunct(ch: u8) -> bool {
+        crate::ctype::ispunct(ch)
+    }
+    pub fn isdigit(ch: u8) -> bool {
+        crate::ctype::isdigit(ch)
+    }
+    pub fn isalpha(ch: u8) -> bool {
+        crate::ctype::isalpha(ch)
+    }
+    pub fn isalnum(ch: u8) -> bool {
+        crate::ctype::isalnum(ch)
+    }
+}
